@@ -551,11 +551,12 @@ fn index_get_array(obj: Object, mut index: isize) -> Result<Object, Error> {
 
 fn index_get_string(obj: Object, mut index: isize, gc: &mut GC) -> Result<Object, Error> {
     let str = obj.as_str();
+    let length = str.chars().count();
     if index < 0 {
-        index += str.chars().count() as isize;
+        index += length as isize;
     }
     let index = index as usize;
-    if index >= str.len() {
+    if index >= length {
         return Err(Error::IndexError(
             "lijst index valt buiten de lijst".to_string(),
         ));
